@@ -39,6 +39,7 @@ type procInput struct {
 	FT       []bool   `json:"faults_test"`
 	Evs      []procEv `json:"events"`
 	Tail     int      `json:"tail_from"` // index of the first event of the fault-free recovery tail, -1 = none
+	FFCEvery int      `json:"ffc_every,omitempty"` // > 0: frames whose id is 0 or 1 modulo this carry a fresh flat-field correction
 }
 
 // ---- observed trace ----
@@ -116,6 +117,11 @@ func harnessParser(raw []byte, out *cptvframe.Frame, edge int) error {
 	}
 	setID(out, id)
 	out.Status = cptvframe.Telemetry{TimeOn: time.Minute + time.Duration(id)*time.Millisecond, LastFFCTime: time.Second}
+	if len(raw) > 7 && raw[7] == 1 {
+		// the camera ran a flat-field correction just before this frame (the detector then reports no
+		// motion; nothing else in the processor may depend on it)
+		out.Status.LastFFCTime = out.Status.TimeOn
+	}
 	return nil
 }
 
@@ -200,7 +206,10 @@ func procRun(in procInput) (steps []procStep) {
 					}
 				}
 				now = base.Add(time.Duration(e.Tod))
-				raw := []byte{0, byte(nextID), byte(nextID >> 8), byte(nextID >> 16), byte(nextID >> 24), byte(level), byte(level >> 8)}
+				raw := []byte{0, byte(nextID), byte(nextID >> 8), byte(nextID >> 16), byte(nextID >> 24), byte(level), byte(level >> 8), 0}
+				if in.FFCEvery > 0 && nextID%in.FFCEvery < 2 {
+					raw[7] = 1
+				}
 				step.ID = nextID
 				nextID++
 				if err := mp.Process(raw); err != nil {
@@ -320,6 +329,7 @@ func procGen(rng *rand.Rand, i int, mode string) procInput {
 	if in.Preview*in.FPS+in.Trigger < 1 {
 		in.Trigger = 1
 	}
+	in.FFCEvery = []int{0, 0, 7, 13, 29}[rng.Intn(5)]
 	in.MinSecs = rng.Intn(4)
 	in.MaxSecs = in.MinSecs + rng.Intn(5-in.MinSecs+1)
 	if in.FPS == 9 && rng.Intn(2) == 0 {
